@@ -452,6 +452,7 @@ func limFamily() []Pat {
 		`[a-z]+\d*@\w+\.com`, `\w+\s*=\s*\d+;`, `[a-z]+-?:\d+/`, `[ab]+c*(?:x|y)[ab]*(?:z)[ab]+`, `[a-z]+\d?(?:-|_)[a-z]*(?:\.)[a-z]+`,
 		`[xy]*(abc|b)(c)(d)`, `[xy]*(?:abcdef|b)cde`, `[xy]*(?:ab|b)(c)d`, `[xy]*(b|abc)(c)(d)`, `[xy]+(?:abc|b)(?:c|cc)(d)`, `\w*?(?:-ab|-)(b)(c)`,
 		`[ab]+(?: x | y)[ab]*(?:z |w)[ab]+`, `\w+\s+in\s+\w+\s+of\s+\w+`,
+		`[a-z]*(?:at\s+|\s+at)\s*\d+\.com`, `[a-z]*(?:\s+at|at\s+)\s*\d+\.com`, `[ab]*(?:c\s+|\s+c)\s*(d)(e)`, `\w*(?:-\s+|\s+-)\s*(\d)(;)`, `[a-z]+(?:=\s*|\s*=)(\d)(;)(\s)`, `[a-z]*(?:at\s|\s\s+at)\s*(\d)(\.)`,
 		`\bfoo\b`, `foo\b.`, `^abc$`, `abc$`, `\Aabc\z`, `(?m)^abc$`, `(?m)abc$\n?d`} {
 		add(`%s`, s)
 	}
